@@ -3,7 +3,8 @@ import k5check
 
 
 def run(tier):
-    return k5check.run("C08", tier, k3_programs=["migration-lazy", "migration-lazy-4", "expand-vs-updates", "find-vs-rehash", "two-resizers"])
+    return k5check.run("C08", tier, extra_props=["C08Life"],
+                       k3_programs=["migration-lazy", "migration-lazy-4", "expand-vs-updates", "find-vs-rehash", "two-resizers"])
 
 
 def replay(path):
